@@ -746,7 +746,7 @@ def suite_conc_lines(ctx: Ctx) -> SuiteResult:
     if thorough:
         pairs = list(call_seqs(2))
     for k, calls in enumerate(pairs):
-        for m in (SIZES if thorough else [sizes[k % len(sizes)]]):
+        for m in [sizes[k % len(sizes)]]:
             base = {"kind": "conc", "m": m, "ncol": 3, "calls": calls,
                     "gaps": ["1/4", "0", "1/2"], "trace": "full", "preempt": "lines",
                     "max_preemptions": 3 if thorough else 2}
@@ -777,7 +777,7 @@ def suite_conc_random(ctx: Ctx) -> SuiteResult:
              "random line-granular schedules (switch probability 35% per decision point); "
              "non-trivial = producer and consumer critical sections alternate at least once; "
              "distinct = by (size, collects, calls, lock order)")
-    for _ in range(ctx.n(2500, 60000)):
+    for _ in range(ctx.n(2500, 30000)):
         case = random_conc_case(ctx.rng)
         vs, d, r = run_conc(case, ctx.driver)
         res.evaluations += 1
